@@ -1,48 +1,106 @@
 import SoundeventModel.Ops.Common
 import SoundeventModel.Ops.C16
 import SoundeventModel.Axis
+import SoundeventModel.AxisOps
 namespace SE.Ops.C17
 open Lean SE SE.Axis SE.Ops.C16
 
-def getSamples (a : Json) : Except String (Samples Int) := do
+/-- a cell: a JSON integer, a rational string, or one of "nan", "inf", "-inf" -/
+def getCell (j : Json) : Except String Cell :=
+  match j with
+  | .str "nan" => .ok .nan
+  | .str "inf" => .ok .posInf
+  | .str "-inf" => .ok .negInf
+  | _ => do return .num (← getRat j)
+
+def cellJ : Cell → Json
+  | .num q => if q.den = 1 then Json.num q.num else ratJ q
+  | .nan => Json.str "nan"
+  | .posInf => Json.str "inf"
+  | .negInf => Json.str "-inf"
+
+/-- a datum: one cell (1-D array) or the list of the cells over the other dimensions -/
+def getDatum (j : Json) : Except String Datum :=
+  match j with
+  | .arr xs => xs.toList.mapM getCell
+  | _ => do return [← getCell j]
+
+def datumJ (d : Datum) : Json :=
+  match d with
+  | [c] => cellJ c
+  | cs => arrJ (cs.map cellJ)
+
+def getSamples (a : Json) : Except String (Samples Datum) := do
   let cs ← getRatList (← fld a "coords")
-  let ds ← (← fldArr a "data").mapM (·.getInt?)
+  let ds ← (← fldArr a "data").mapM getDatum
   if cs.length != ds.length then .error "coords/data length"
   return cs.zip ds
 
-def samplesJ (s : Samples Int) : Json :=
-  Json.mkObj [("coords", ratsJ (coordsOf s)), ("data", arrJ ((dataOf s).map intJ))]
+def samplesJ (s : Samples Datum) : Json :=
+  Json.mkObj [("coords", ratsJ (coordsOf s)), ("data", arrJ ((dataOf s).map datumJ))]
 
-def getPos (s : String) : Option Pos :=
-  match s with
-  | "start" => some .start
-  | "center" => some .center
-  | "end" => some .end
-  | _ => none
+/-- the scalar `fill_value` (default 0) broadcast over the other dimensions -/
+def getFill (a : Json) (s : Samples Datum) : Except String Datum := do
+  let c ← match fldOpt a "fill" with
+    | none => pure (Cell.num 0)
+    | some j => getCell j
+  let k := match s.head? with | some p => p.2.length | none => 1
+  return List.replicate k c
+
+/-- position string; a missing position is the default `"start"` -/
+def getPosOf (a : Json) : Except String (Option Pos) :=
+  match fldOpt a "pos" with
+  | none => .ok (some .start)
+  | some j => do
+    match ← j.getStr? with
+    | "start" => return some .start
+    | "center" => return some .center
+    | "end" => return some .end
+    | _ => return none
+
+def optRatJ : Option Rat → Json
+  | none => Json.null
+  | some q => ratJ q
 
 def handle (op : String) (a : Json) : Except String Json := do
   match op with
   | "crop_dim" =>
     let s ← getSamples a
     let eps := (← fldOptRat a "eps").getD defaultEps
-    return aexceptJ samplesJ (cropDim s (← fldOptRat a "start") (← fldOptRat a "stop")
-      (← fldBool a "lc") (← fldBool a "rc") eps)
+    let lc := match fldOpt a "lc" with | none => pure true | some j => j.getBool?
+    let rc := match fldOpt a "rc" with | none => pure false | some j => j.getBool?
+    return aexceptJ samplesJ (cropDim s (← fldOptRat a "start") (← fldOptRat a "stop") (← lc) (← rc) eps)
   | "extend_dim" =>
     let s ← getSamples a
     let eps := (← fldOptRat a "eps").getD defaultEps
+    let lc := match fldOpt a "lc" with | none => pure true | some j => j.getBool?
+    let rc := match fldOpt a "rc" with | none => pure false | some j => j.getBool?
     return aexceptJ samplesJ (extendDim s (← fldOptRat a "step_attr") (← fldOptRat a "start")
-      (← fldOptRat a "stop") (← fldInt a "fill") eps (← fldBool a "lc") (← fldBool a "rc"))
+      (← fldOptRat a "stop") (← getFill a s) eps (← lc) (← rc))
   | "width" =>
     let s ← getSamples a
     let attr ← fldOptRat a "step_attr"
     let w ← fldInt a "w"
-    let fill ← fldInt a "fill"
-    let pos := getPos (← fldStr a "pos")
+    let fill ← getFill a s
+    let pos ← getPosOf a
     match ← fldStr a "fn" with
     | "adjust" => return aexceptJ samplesJ (adjustWidth s attr w fill pos)
     | "crop" => return aexceptJ samplesJ (cropWidth s w.toNat pos)
     | "extend" => return aexceptJ samplesJ (extendWidth s attr w.toNat fill pos)
     | f => .error s!"unknown width function {f}"
+  | "dim_step" =>
+    let cs ← getRatList (← fld a "coords")
+    let rtol := (← fldOptRat a "rtol").getD defaultRtol
+    let atol := (← fldOptRat a "atol").getD defaultAtol
+    let chk := match fldOpt a "check_tolerance" with | none => pure true | some j => j.getBool?
+    let est := match fldOpt a "estimate_step" with | none => pure true | some j => j.getBool?
+    return aexceptJ optRatJ (dimStepFull (← fldOptRat a "step_attr") cs rtol atol (← chk) (← est))
+  | "dim_range" =>
+    let cs ← getRatList (← fld a "coords")
+    match dimRange cs, dimWidth cs with
+    | .ok (lo, hi), .ok w => return valJ (ratsJ [lo, hi, w])
+    | .error e, _ => return araiseJ e
+    | _, .error e => return araiseJ e
   | "noop" => return Json.null
   | _ => .error s!"C17: unknown op {op}"
 
